@@ -1046,6 +1046,11 @@ class CxxParser:
 
         dtype = self._parse_cv_ptr(parsed_type)
 
+        # alias of an array type
+        tok = self.lex.token_if("[")
+        if tok:
+            dtype = self._parse_array_type(tok, dtype)
+
         alias = UsingAlias(id_tok.value, dtype, template, self._current_access, doxygen)
 
         self.visitor.on_using_alias(self.state, alias)
